@@ -6,7 +6,8 @@
    D     = (D name kind S...)     S = (S (params P...) P|- P|- ty (exc ty...))
    P     = (P name ty kind opt ty|-)
    ty    = nID | cID | A | Z | Ln | (U ty...) | (G b ty...) | (T b ty...) | (F b ty...)    b = nID | cID
-   Output: the optimised unit / type in the same syntax, or ERR (model returned None). *)
+   Output: the optimised unit / type in the same syntax, or ERR (model returned None); for units a tab and
+   S/N: whether the result is in normal form (Spec.stable_unit). *)
 open Opt_model
 
 type sx = Atom of string | L of sx list
@@ -142,7 +143,15 @@ let () =
       let b = Buffer.create 1024 in
       (match parse line with
        | L [Atom "case"; Atom "U"; o; h; u] ->
-         (match opt (opts o) (hier h) (unit_ u) with Some r -> punit b r | None -> Buffer.add_string b "ERR")
+         let oo = opts o and hh = hier h in
+         (match opt oo hh (unit_ u) with
+          | Some r ->
+            punit b r;
+            (* is the result in optimiser normal form (Spec.stable_unit)?  monitored by the check *)
+            let forced = oo.o_deps && oo.o_can_do_lookup in
+            let st = stable_unit KClass oo hh r || ((not forced) && stable_unit KNamed oo hh r) in
+            Buffer.add_string b (if st then "\tS" else "\tN")
+          | None -> Buffer.add_string b "ERR")
        | L [Atom "case"; Atom "T"; o; _; t] ->
          (match opt_ty (opts o) (ty t) with Some r -> pty b r | None -> Buffer.add_string b "ERR")
        | _ -> failwith "bad case");
